@@ -102,6 +102,20 @@ var c18Templates = map[string]string{
 	"deep3.txt": "3({% include 'deep2.txt' %})", "deep2.txt": "2({% include 'deep1.txt' %})", "deep1.txt": "1({{ meet() }}{% for i in 1..3 %}{{ x }}{% endfor %})",
 	// explicit escape strategies, registered and not: first uses happen concurrently on the fresh shared environments
 	"strategies.html": "{{ x|escape('xml') }}{{ x|e('svg') }}{{ x|escape('js') }}{{ x|escape('nope') }}{{ x|escape('txt') }}{{ x|e }}",
+	// one name, different things in different templates: an import alias here, a context variable there; a macro
+	// here, a registered function there; a block name in unrelated templates; the first verbatim of the process
+	"aliasitems.html": "{% import 'macros.twig' as items %}{{ items.wrap(x) }}{% from 'macros.twig' import wrap as t %}{{ t(x) }}",
+	"aliasvar.html":   "{{ mm.title }}|{{ mm.wrap }}|{{ mm.title ~ mm.wrap }}",
+	"aliasvar.js":     "var a = '{{ mm.title }}';",
+	"macropure.html":  "{% from 'macros2.twig' import pure %}{{ pure() }}{% import 'macros2.twig' as x %}{{ x.pure() }}",
+	"macros2.twig":    "{% macro pure() %}<macro-pure>{% endmacro %}",
+	"funcpure.html":   "{{ pure() }}{{ x }}",
+	"zone.html":       "{% block one %}[z-one {{ x }}]{% endblock %}{% block two %}{{ block('one') }}{% endblock %}",
+	"verb.html":       "{% verbatim %}{{ x }}{% if %}{% endverbatim %}{{ x }}{% verbatim %}2{% endverbatim %}",
+	"verb.js":         "{%- verbatim -%} '{{ x }}' {%- endverbatim -%}'{{ x }}'",
+	// what a call returns is a function of the template and the context, also when a filter is handed a hash
+	// whose keys overlap
+	"replace.txt":     "{{ 'abcabc'|replace({'a': '1', 'ab': '2', 'abc': '3', 'b': '4'}) }}|{{ x|replace({'a': 'A', 'al': 'AL', 'p': 'P', 'pl': 'PL', 'ain': '!'}) }}",
 	"tests.txt":       "{{ 4 is pos }}{{ 0 is not pos }}{% for i in items if i %}{{ loop.index }}{{ i }}{% else %}none{% endfor %}",
 }
 
@@ -135,9 +149,9 @@ func c18SharedIntact() string {
 }
 
 var c18Ctx = []map[string]stick.Value{
-	{"x": "<b>&\"'x</b>", "t": true, "items": []stick.Value{"<i>", "two"}},
+	{"x": "<b>&\"'x</b>", "t": true, "items": []stick.Value{"<i>", "two"}, "mm": map[string]stick.Value{"title": "<i>'t'</i>", "wrap": "<w>"}},
 	{"x": "plain", "t": false, "items": []stick.Value{}},
-	{"x": "'; alert(1); //", "t": true, "items": []stick.Value{1, 2, 3}},
+	{"x": "'; alert(1); //", "t": true, "items": []stick.Value{1, 2, 3}, "mm": map[string]stick.Value{"title": "</script>"}},
 	{"x": "é😀</script>", "t": true, "items": []stick.Value{"a'b"}},
 }
 
@@ -326,11 +340,35 @@ func (p *c18) Init(tier string, seed int64) {
 			}
 		}
 	}
-	// sequential result table from fresh, identically configured environments
-	tw, co := c18NewEnvs()
+	if fw.IsRaceBuild {
+		// cold start: the very first use of everything in this process happens concurrently (what is initialised
+		// on first use is initialised under the race detector's eyes); pairs of goroutines walk the templates in
+		// the same order, each pair starting somewhere else. Only the race log matters here.
+		tw, co := c18NewEnvs()
+		var wg sync.WaitGroup
+		for g := 0; g < 16; g++ {
+			wg.Add(1)
+			go func(g int) {
+				defer wg.Done()
+				off := (g / 2) * len(p.names) / 8
+				for k := range p.names {
+					n := p.names[(off+k)%len(p.names)]
+					env := tw
+					if g%4 >= 2 {
+						env = co
+					}
+					c18do(env, k%2, n, c18copyCtx(c18ctxAt(g%len(c18Ctx))))
+				}
+			}(g)
+		}
+		wg.Wait()
+	}
+	// sequential result table: every template on a fresh, identically configured pair of environments of its own
+	// ("alone" means that nothing else has ever been parsed or run there)
 	p.expected = map[string]c18exp{}
-	for ei, env := range []*stick.Env{tw, co} {
-		for _, n := range p.names {
+	for _, n := range p.names {
+		tw, co := c18NewEnvs()
+		for ei, env := range []*stick.Env{tw, co} {
 			for ci := 0; ci <= len(c18Ctx); ci++ {
 				for op := 0; op < 2; op++ {
 					p.expected[fmt.Sprintf("%d|%d|%s|%d", ei, op, n, ci)] = c18do(env, op, n, c18copyCtx(c18ctxAt(ci)))
@@ -492,7 +530,7 @@ func (p *c18) Run(i int) (res fw.Result) {
 }
 
 func (p *c18) Rule() string {
-	return fmt.Sprintf("rounds: N in {2,4,16,64} goroutines released by one barrier, each doing 3..6 calls decided beforehand (Execute or Parse, Twig or core environment, one of %d hand-written templates and 10 (quick) / 24 (thorough) generated multi-template programs (every tag and operator, inheritance chains, include/embed/use/import; own name prefix each), mixing .html/.js/.css/.txt/no extension/unknown extension, blocks, inheritance, include and embed of another content type, macros, imports, filter sections, captures, a six-deep include chain (in a quarter of the rounds - those with 64 goroutines - every caller renders it and a race-free meet() function at the bottom holds each until all have arrived, so that 64 callers have 384 includes open at the same moment), explicit escape strategies incl. unregistered ones, a syntax error, run-time errors (also after partial output inside a filter section, a capture, a macro, a block and an include), filters building new values from a slice (with spare capacity) and a map that ALL contexts share; 4 contexts and no context at all) with its own context map and buffer, on ONE shared twig.New and ONE shared stick.New environment per worker process; GOMAXPROCS in {1,2,16}. Even rounds run in -race workers (traverse hook = bare Gosched at module/block/body/print nodes, no monitor-side synchronisation); odd rounds in plain workers (hook = seeded yields and micro-sleeps, global module-enter event log). Oracles: (1) the race detector's log (halt_on_error=0, log_path) parsed by the driver: every report with a library frame is a violation, deduplicated by the set of library functions involved; (2) every concurrent result (output and error text, or the parsed tree's String()) equals the result of the same call on a fresh identically configured environment run alone; (3) no panic in any goroutine; (4) the shared context values are unchanged after every round, spare capacity included; (5) every error value a call returned still reads the same after all other calls of the round have finished. Non-trivial = plain-build round in which >=2 calls were in flight at once; distinct = (N, hash of the global order of module-enter events).", len(c18Templates))
+	return fmt.Sprintf("rounds: N in {2,4,16,64} goroutines released by one barrier, each doing 3..6 calls decided beforehand (Execute or Parse, Twig or core environment, one of %d hand-written templates and 10 (quick) / 24 (thorough) generated multi-template programs (every tag and operator, inheritance chains, include/embed/use/import; own name prefix each), mixing .html/.js/.css/.txt/no extension/unknown extension, blocks, inheritance, include and embed of another content type, macros, imports, filter sections, captures, a six-deep include chain (in a quarter of the rounds - those with 64 goroutines - every caller renders it and a race-free meet() function at the bottom holds each until all have arrived, so that 64 callers have 384 includes open at the same moment), explicit escape strategies incl. unregistered ones, a syntax error, run-time errors (also after partial output inside a filter section, a capture, a macro, a block and an include), filters building new values from a slice (with spare capacity) and a map that ALL contexts share; 4 contexts and no context at all) with its own context map and buffer, on ONE shared twig.New and ONE shared stick.New environment per worker process; GOMAXPROCS in {1,2,16}. Even rounds run in -race workers (traverse hook = bare Gosched at module/block/body/print nodes, no monitor-side synchronisation); odd rounds in plain workers (hook = seeded yields and micro-sleeps, global module-enter event log). Oracles: (1) the race detector's log (halt_on_error=0, log_path) parsed by the driver: every report with a library frame is a violation, deduplicated by the set of library functions involved; (2) every concurrent result (output and error text, or the parsed tree's String()) equals the result of the same call on a fresh identically configured environment on which nothing but that template has ever been parsed or run; (1') in -race workers the first thing the process does is a cold start - 16 goroutines, in pairs, walking all templates on fresh environments - so that whatever is initialised on first use is initialised concurrently; (3) no panic in any goroutine; (4) the shared context values are unchanged after every round, spare capacity included; (5) every error value a call returned still reads the same after all other calls of the round have finished. Non-trivial = plain-build round in which >=2 calls were in flight at once; distinct = (N, hash of the global order of module-enter events).", len(c18Templates))
 }
 
 func (p *c18) Assumptions() []string {
